@@ -50,8 +50,9 @@ def prim_payload(name, rng, size_hint, maximal=False):
 
 
 class Enc:
-    def __init__(self, toks, rng, maxlen=3, sample=None, maximal=False, strlen=None):
+    def __init__(self, toks, rng, maxlen=3, sample=None, maximal=False, strlen=None, intval=None):
         self.t, self.i, self.r, self.maxlen, self.sample = toks, 0, rng, maxlen, sample
+        self.intval = intval            # every plain (non-count, non-steering) integer field wide enough takes this value
         self.maximal, self.strlen = maximal, strlen   # maximal: longest strings, all flag bits, full masks, optional present
         self.counts = {int(toks[k + 1]) for k in range(len(toks) - 1) if toks[k] == "arrv"}
         self.steer = {int(toks[k + 1]) for k in range(len(toks) - 1) if toks[k] == "if"}
@@ -125,6 +126,8 @@ class Enc:
                 v = (1 << (8 * w)) - 1
             elif vid in self.steer:
                 v = self.steer_value(vid, w)
+            elif self.intval is not None and self.intval < (1 << (8 * w)) and (w >= 4 or self.intval >= (1 << (8 * (w - 1))) or w == 1):
+                v = self.intval
             else:
                 v = self.r.choice([0, 1, (1 << (8 * w)) - 1, self.r.below(1 << (8 * w))])
             return v.to_bytes(w, "little" if e == "le" else "big"), v
@@ -316,9 +319,39 @@ class Enc:
         return self.members(env)
 
 
-def encode(tokens, rng, maxlen=3, sample=None, maximal=False, strlen=None):
-    e = Enc(tokens, rng, maxlen, sample, maximal, strlen)
+def encode(tokens, rng, maxlen=3, sample=None, maximal=False, strlen=None, intval=None):
+    e = Enc(tokens, rng, maxlen, sample, maximal, strlen, intval)
     b = e.members({})
     if e.i != len(tokens):
         raise Unsupported("trailing tokens")
     return b
+
+
+def literal_pool(repo, which="login"):
+    """integer values suggested by the numeric literals of the hand-written codec sources (T-gen of the value dictionary): for a float
+    literal L the f32 bit patterns of L, its two neighbours, L +- 0.5, L + 0.25, L + 2e-5 and -L; for an integer literal L - 1, L, L + 1"""
+    import os, re, struct, glob
+    if which == "login":
+        files = glob.glob(os.path.join(repo, "wow_login_messages/src/manual/*.rs")) + glob.glob(os.path.join(repo, "wow_login_messages/src/util/*.rs"))
+    else:
+        files = glob.glob(os.path.join(repo, "wow_world_messages/src/manual/**/*.rs"), recursive=True) + glob.glob(os.path.join(repo, "wow_world_messages/src/util/functions/*.rs")) + \
+            glob.glob(os.path.join(repo, "wow_world_base/src/manual/**/*.rs"), recursive=True) + glob.glob(os.path.join(repo, "wow_world_base/src/shared/*.rs"))
+    pool = set()
+    for f in files:
+        txt = re.sub(r"//[^\n]*", "", open(f).read())
+        for m in re.finditer(r"(?<![\w.])(\d+\.\d+)(?:_?f32|_?f64)?(?![\w.])", txt):
+            L = float(m.group(1))
+            for x in (L, L + 0.5, L - 0.5, L + 0.25, L + 2e-5, -L):
+                try:
+                    b = struct.unpack("<I", struct.pack("<f", x))[0]
+                except OverflowError:
+                    continue
+                pool.update({b, b + 1, max(0, b - 1)})
+        for m in re.finditer(r"(?<![\w.])(0x[0-9a-fA-F_]+|\d[\d_]*)(?:_?[ui](?:8|16|32|64|size))?(?![\w.])", txt):
+            try:
+                L = int(m.group(1).replace("_", ""), 0)
+            except ValueError:
+                continue
+            if 1 < L < (1 << 32):
+                pool.update({L - 1, L, L + 1})
+    return sorted(pool)
